@@ -845,6 +845,9 @@ func TestVerifC06Release(t *testing.T) {
 		idx := i + int(seed-1)*7
 		c06RunCase(t, w, fmt.Sprintf("r%d-%d", seed, i), seed*1000003+int64(i), idx, stats)
 	}
+	// receiving half: ReceiveRevocation with the real store, the commitment-point check and
+	// the persisted revocation state (zz_c06_recv_verif_test.go), cases `kind=recv`
+	c06RecvCases(t, w, seed, os.Getenv("VERIF_TIER") == "thorough", stats)
 	keys := make([]string, 0, len(stats))
 	for k := range stats {
 		keys = append(keys, k)
